@@ -92,7 +92,7 @@ def rnd_qarg(rnd, forms=("str", "mapping", "multidict", "pairs", "tuplepairs", "
         return {"form": "str", "s": T(s), "pairs": []}
     n = rnd.choice((0, 1, 2, 3))
     pairs = []
-    keys = ["a", "b", "c", "", "a b", "é", "k&=", "+", "a;b", "%41"]
+    keys = ["a", "b", "c", "", "a b", "é", "k&=", "+", "a;b", "%41", "query", "encoded", "args", "self"]
     for _ in range(n):
         k = rnd.choice(keys) if rnd.random() < 0.7 else text(rnd, 2, surrogate_p=surrogate_p)
         if f == "kwargs" and (not k or not isinstance(k, str)):
@@ -142,7 +142,8 @@ def rnd_step(rnd, ops=TEXT_OPS, surrogate_p=0.0, typed=False, encoded_p=0.0):
         r = rnd.random()
         refs = ["", "?y", "#s", "g", "./g", "g/", "/g", "//h", "//h/p", "..", "../..", "../../../g", "/./g", "g/../h",
                 "g;x=1/./y", "http:g", "http://h2/p", "https://h2", "g?y#s", "%2E%2E/g", "a%2Fb", "a b", "é", ".", "./",
-                "../g", "g//.", "x:y", "mailto:a@b", "g?", "?", "#"]
+                "../g", "g//.", "x:y", "mailto:a@b", "g?", "?", "#", "#caf%E9", "#%FF", "#a%80b%2F", "?q=%E9%2B", "g?%FF#%C3",
+                "#a b", "?a b", "g%2Fh/%2E", "#%41%2f"]
         s = rnd.choice(refs) if r < 0.7 else grid.sample(rnd, ipvfuture=IPVFUTURE)
         return {"op": op, "ref": {"op": "ctor", "s": T(s), "encoded": rnd.random() < encoded_p}}
     if op == "with_host":
